@@ -718,6 +718,9 @@ func (m *monitor) step(s stepRec) string {
 		// it ends the transaction), so the ordinal of the next Data call is
 		// the number of Data calls begun in earlier steps
 		m.nData += len(begins(s.Events, "Data", "LMTPData"))
+		// every Auth callback takes the next SASL script, also during the
+		// stretches in which the model predicts nothing
+		m.nSASL += len(begins(s.Events, "Auth"))
 		if s.Closed {
 			m.closed = true
 		}
@@ -1105,7 +1108,7 @@ func (m *monitor) step(s stepRec) string {
 		if m.nSASL < len(m.script.SASL) {
 			sc = m.script.SASL[m.nSASL]
 		}
-		m.nSASL++
+		// (m.nSASL advances with the Auth callbacks observed, see step's deferred sync)
 		final := 235
 		if !sc.Final.OK() {
 			final = decisionCode(sc.Final, 454)
